@@ -382,7 +382,9 @@ def run_post(c, rec):
                 require(g_arr.shape == g_plain.shape and float(np.max(np.abs(g_arr - g_plain))) <= 1e-8 * (1 + float(np.max(np.abs(g_plain)))),
                         f"{name}: the gradient at a CUQIarray of {label} (equal geometry built separately) differs from the gradient at the same point "
                         "given as a plain vector", as_array=g_arr, plain=g_plain)
-        if c["fd"] and name != "multi":
+        # (finite differences are judged for identity-like range geometries: the max / min projections of a step expansion in the
+        # range make the log-density piecewise smooth with kinks at ties, where a one-sided difference and the derivative differ)
+        if c["fd"] and name != "multi" and mc["ran"]["kind"] in ("default", "cont1d", "discrete"):
             refused, _ = refuses(lambda: obj.enable_FD())
             if not refused:
                 res2 = judge(name + "[FD]", obj.gradient, obj.logd, x, rec, fd=True)
